@@ -36,7 +36,10 @@ type absPkt struct {
 	Z   bool   `json:"z"`
 	Len int    `json:"len"` // abstract body length class
 	C   string `json:"c"`   // body content class ("any": picked here, seeded)
+	Fl  string `json:"fl"`  // flag bit the caller presets in PacketType: "" / none | enc (0x80) | zpre (0x40 without compression)
 }
+
+func (p absPkt) flagged() bool { return p.Fl != "" && p.Fl != "none" }
 type absRead struct {
 	F string `json:"f"` // T | L | B
 	N int    `json:"n"` // bytes handed over by this Read (0 = empty read)
@@ -75,7 +78,7 @@ func hashOf(b []byte) int64 {
 // body content classes of payload packets: what a tunnel may carry must come back identical whether or
 // not compression is on - all zeros, incompressible random bytes, random bytes behind a gzip magic
 // (1f 8b 08), a complete gzip stream (e.g. a .gz file), bytes that look like a packet header of this protocol.
-var contents = []string{"zeros", "random", "gzmagic", "gzstream", "hdrlike"}
+var contents = []string{"zeros", "random", "gzmagic", "gzstream", "hdrlike", "period"}
 
 func concretise(a absBeh, r *rand.Rand, transport string) concBeh {
 	c := concBeh{Transport: transport, Reads: a.Reads, Map: []string{"prop", "head", "tail"}[r.Intn(3)], Salt: r.Int63()}
@@ -150,6 +153,12 @@ func text(r *rand.Rand, n int) string {
 
 func build(p concPkt, r *rand.Rand) *packet.TransferPacket {
 	t := &packet.TransferPacket{PacketType: packet.Type(p.Type)}
+	switch p.Fl {
+	case "enc":
+		t.PacketType |= packet.Encrypted
+	case "zpre":
+		t.PacketType |= packet.Compressed
+	}
 	switch p.K {
 	case "HB":
 	case "CMD":
@@ -206,6 +215,8 @@ func body(r *rand.Rand, n int, class string, z bool) []byte {
 		b := make([]byte, n)
 		r.Read(b)
 		return b
+	case "period": // very short period: deflate reaches its maximum ratio (~1030:1), like zeros
+		return bytes.Repeat([]byte("abc"), n/3+1)[:n]
 	}
 	return filler(r, n, z && n > 1<<20) // no class given (driver-made size cases)
 }
@@ -564,8 +575,13 @@ func drive(env *fw.Env, b fw.Behaviour) *fw.Trace {
 		if p.Type == byte(packet.TunnelData) {
 			cls += ":TunnelData"
 		}
+		fl := "none"
+		if p.flagged() {
+			fl = p.Fl
+			cls += ":fl=" + fl
+		}
 		t.Events = append(t.Events, fw.Event{"ev": "Write", "i": i + 1, "ok": err == nil, "cls": cls, "cut": cutClass(pp[i]),
-			"base": int(p.Type & 0x3F), "len": p.Size, "n": n, "wrote": wrote, "type": int(p.Type)})
+			"base": int(p.Type & 0x3F), "len": p.Size, "n": n, "wrote": wrote, "type": int(orig[i].PacketType), "fl": fl})
 		if err != nil {
 			wire.Truncate(before)
 			continue
@@ -644,6 +660,12 @@ func drive(env *fw.Env, b fw.Behaviour) *fw.Trace {
 						ev["calls"], ev["modelCalls"] = cnt.calls, len(beh.Reads)+1
 					}
 					endEv = ev
+				} else if idx < len(beh.Pkts) && beh.Pkts[idx].flagged() {
+					// an error for a packet with a caller-preset flag: the reader may refuse it, the caller reads on
+					evs = append(evs, fw.Event{"ev": "Rejected", "consumed": consumed, "msg": err.Error(), "at": before})
+					held = append(held, nil)
+					idx++
+					continue
 				} else {
 					endEv = fw.Event{"ev": "Err", "kind": "error", "msg": err.Error(), "consumed": consumed, "at": before}
 				}
@@ -662,6 +684,9 @@ func drive(env *fw.Env, b fw.Behaviour) *fw.Trace {
 		}
 		// the sequence has been read: every packet handed out earlier must still be what was written
 		for i, pkt := range held {
+			if pkt == nil {
+				continue
+			}
 			evs = append(evs, fw.Event{"ev": "Held", "i": i + 1, "eq": i < len(orig) && same(orig[i], pkt)})
 		}
 		if endEv != nil {
@@ -690,13 +715,22 @@ func drive(env *fw.Env, b fw.Behaviour) *fw.Trace {
 // ---- wiring ------------------------------------------------------------------------------
 
 func subst(pk, ln, st int) map[string]string {
-	return map[string]string{"PKTS": fmt.Sprint(pk), "LEN": fmt.Sprint(ln), "STALL": fmt.Sprint(st), "CONTENTS": `{"any"}`, "CHUNK": "all"}
+	return map[string]string{"PKTS": fmt.Sprint(pk), "LEN": fmt.Sprint(ln), "STALL": fmt.Sprint(st), "CONTENTS": `{"any"}`, "CHUNK": "all", "FLAGS": `{"none"}`}
 }
 
 // substContent: the content-class dimension in the model, chunking fixed to "everything asked for"
 func substContent(pk, ln int) map[string]string {
 	m := subst(pk, ln, 0)
-	m["CONTENTS"], m["CHUNK"] = `{"zeros", "random", "gzmagic", "gzstream", "hdrlike"}`, "max"
+	m["CONTENTS"], m["CHUNK"] = `{"zeros", "random", "gzmagic", "gzstream", "hdrlike", "period"}`, "max"
+	return m
+}
+
+const allFlags = `{"none", "enc", "zpre"}`
+
+// substFlags: caller-preset flag bits as a packet dimension
+func substFlags(pk, ln, st int, chunk string) map[string]string {
+	m := subst(pk, ln, st)
+	m["FLAGS"], m["CHUNK"] = allFlags, chunk
 	return m
 }
 
@@ -747,6 +781,73 @@ func extra(env *fw.Env) []json.RawMessage {
 				out = append(out, fw.MustJSON(b))
 			}
 		}
+	}
+	// a packet with a caller-preset flag in front of ordinary packets: whatever the reader does with it, it must
+	// consume exactly its bytes (sizes 0, 1, 37, 5000; compression on/off; Encrypted and Compressed-but-raw)
+	for _, fl := range []string{"enc", "zpre"} {
+		for _, z := range []bool{false, true} {
+			if fl == "zpre" && z {
+				continue
+			}
+			for _, size := range []int{0, 1, 37, 5000} {
+				for _, k := range []string{"PAY", "CMD"} {
+					salt++
+					ln, nb := 2, 2
+					if size == 0 {
+						ln, nb = 0, 0
+					}
+					if z {
+						nb++
+					}
+					typ, c := byte(packet.TunnelData), "gzstream"
+					if k == "CMD" {
+						typ, c = byte(packet.JsonCommand), ""
+					}
+					if size == 0 {
+						c = ""
+					}
+					b := concBeh{Transport: "reader", Map: "prop", Salt: salt}
+					b.Pkts = append(b.Pkts, concPkt{absPkt: absPkt{K: k, Z: z, Len: ln, Fl: fl}, Type: typ, Size: size, Content: c})
+					b.Reads = append(b.Reads, absRead{"T", 1}, absRead{"L", 4})
+					if nb > 0 {
+						b.Reads = append(b.Reads, absRead{"B", nb})
+					}
+					b.Pkts = append(b.Pkts, concPkt{absPkt: absPkt{K: "PAY", Len: 2}, Type: byte(packet.TunnelData), Size: 100, Content: "random"},
+						concPkt{absPkt: absPkt{K: "HB", Fl: fl}, Type: byte(packet.Heartbeat)})
+					b.Reads = append(b.Reads, absRead{"T", 1}, absRead{"L", 4}, absRead{"B", 2}, absRead{"T", 1})
+					if fl == "zpre" {
+						b.Pkts[2].Fl = ""
+					}
+					out = append(out, fw.MustJSON(b))
+				}
+			}
+		}
+	}
+	// large, extremely redundant bodies with compression on (deflate's maximum ratio): legal up to the limit
+	type big struct {
+		c    string
+		size int
+		z    bool
+	}
+	bigs := []big{{"zeros", 1<<20 + 1<<19, true}, {"zeros", 2 << 20, true}, {"period", 4 << 20, true}, {"zeros", maxBody, true}}
+	if env.Tier == "thorough" {
+		bigs = append(bigs, big{"period", 1<<20 + 1<<18, true}, big{"period", 2 << 20, true}, big{"zeros", 4 << 20, true}, big{"zeros", 8 << 20, true},
+			big{"period", maxBody, true}, big{"zeros", maxBody - 1, true}, big{"zeros", 2 << 20, false}, big{"period", maxBody, false})
+	}
+	for i, g := range bigs {
+		salt++
+		nb := 2
+		if g.z {
+			nb = 3
+		}
+		b := concBeh{Transport: "reader", Map: "prop", Salt: salt,
+			Pkts: []concPkt{{absPkt: absPkt{K: "PAY", Z: g.z, Len: 2}, Type: byte(packet.TunnelData), Size: g.size, Content: g.c},
+				{absPkt: absPkt{K: "HB"}, Type: byte(packet.Heartbeat)}},
+			Reads: []absRead{{"T", 1}, {"L", 4}, {"B", nb}, {"T", 1}}}
+		if env.Tier == "thorough" && i%3 == 2 {
+			b.Transport = "ws-c2s"
+		}
+		out = append(out, fw.MustJSON(b))
 	}
 	if env.Tier == "thorough" {
 		out = append(out,
@@ -811,6 +912,14 @@ func selfTest(env *fw.Env, acc []*fw.Trace) []*fw.Trace {
 		c = clone(t) // a packet handed out earlier changed while later packets were read
 		c.Events[heldAt]["eq"] = false
 		out = append(out, c)
+		for i, e := range t.Events { // a refused flagged packet was not consumed completely
+			if e["ev"] == "Rejected" {
+				c = clone(t)
+				c.Events[i]["consumed"] = 1
+				out = append(out, c)
+				break
+			}
+		}
 		c = clone(t) // a held-packet report is missing
 		c.Events = append(c.Events[:heldAt], c.Events[heldAt+1:]...)
 		out = append(out, c)
@@ -865,13 +974,14 @@ func main() {
 				{Name: "gen:2x1", Module: "Framing", Cfg: "Framing_gen.cfg", Consts: subst(2, 1, 0), Workers: 8},
 				{Name: "gen:1x3+stall", Module: "Framing", Cfg: "Framing_gen.cfg", Consts: subst(1, 3, 1), Workers: 8},
 				{Name: "gen:content2x1", Module: "Framing", Cfg: "Framing_gen.cfg", Consts: substContent(2, 1), Workers: 4},
-				{Name: "sim:3x3+stall", Module: "Framing", Cfg: "Framing_gen.cfg", Consts: subst(3, 3, 1), Workers: 4,
+				{Name: "gen:flags2x1", Module: "Framing", Cfg: "Framing_gen.cfg", Consts: substFlags(2, 1, 0, "max"), Workers: 4},
+				{Name: "sim:3x3+stall", Module: "Framing", Cfg: "Framing_gen.cfg", Consts: substFlags(3, 3, 1, "all"), Workers: 4,
 					Simulate: "num=300", Depth: 80, Seed: env.Seed},
 			}
 			if env.Tier == "thorough" {
 				jobs = append(jobs,
 					fw.TLCJob{Name: "gen:2x2+stall", Module: "Framing", Cfg: "Framing_gen.cfg", Consts: subst(2, 2, 1), Workers: 12, Heap: "12g"},
-					fw.TLCJob{Name: "sim:4x3+stall", Module: "Framing", Cfg: "Framing_gen.cfg", Consts: subst(4, 3, 1), Workers: 4,
+					fw.TLCJob{Name: "sim:4x3+stall", Module: "Framing", Cfg: "Framing_gen.cfg", Consts: substFlags(4, 3, 1, "all"), Workers: 4,
 						Simulate: "num=2000", Depth: 120, Seed: env.Seed + 1})
 			}
 			return jobs
